@@ -38,12 +38,13 @@ Tags(r) ==
      \o (IF r.back = r.v THEN <<>> ELSE <<"back">>)
      \o (IF r.eq THEN <<>> ELSE <<"eq">>)
      \o (IF r.decl.entries = <<>> \/ Sig(Collect(r.decl)) = Sig(s) THEN <<>> ELSE <<"collect">>)
-     \o Flat([j \in 1 .. Len(r.edits) |->
+     \o (IF r.tree # L THEN <<>> ELSE        \* edits are positions in the tree: judged only on a correct base encoding
+         Flat([j \in 1 .. Len(r.edits) |->
                LET e == r.edits[j]
                    w == RunScan(s, FALSE, Apply(L, e))
                    want == IF w.status = "reject" THEN "reject" ELSE IF w.out = r.v THEN "same" ELSE "other"
                IN IF e.got = want /\ (want = "other" => e.gv = w.out) THEN <<>>
-                  ELSE <<"edit/" \o e.kind \o "/" \o want \o "/" \o e.got \o "/" \o ToString(j)>>])
+                  ELSE <<"edit/" \o e.kind \o "/" \o want \o "/" \o e.got \o "/" \o ToString(j)>>]))
 
 ASSUME \A i \in 1 .. Len(Recs) :
           LET t == Tags(Recs[i]) IN t = <<>> \/ PrintT(<<"V", Recs[i].id, t>>)
